@@ -395,6 +395,13 @@ def jobs(tier):
     add('split_changes', N=1, skip=skip, shared_time=True)
   add('quantize_rel', N=1, spq=4)
   add('quantize_abs', N=1, sps=100)
+  # two notes where that costs seconds (sustain and the _extract_subsequences
+  # family stay at one note in this tier)
+  for name in ('trim', 'shift', 'stretch', 'transpose', 'concat', 'merge',
+               'redundant'):
+    add(name, N=2, shared_time=False, budget=400)
+  add('quantize_rel', N=2, spq=4, budget=400)
+  add('quantize_abs', N=2, sps=100, budget=400)
   add('adjust', N=1, m1=[1, 2], m2=[2, 1])
   add('adjust', N=1, m1=[1, 1], m2=[-1, 1])
   for which in _QUANT_OPS:
